@@ -497,6 +497,9 @@ def main():
     solver_total = 0.0
     for h, r in sorted(results.items()):
         spec = sel.get(h) or vsel.get(h) or {}
+        if h.startswith("precheck:"):
+            spec = next((s_ for s_ in sel.values() if s_.get("precheck") == h[9:]), {})
+            sel[h] = spec
         solver_total += r.get("solver_s") or 0
         # Kani's assert! assumes its condition afterwards: once an obligation fails, the obligations that
         # follow it in the same harness are only checked on the executions where it held. If an obligation of
